@@ -335,13 +335,20 @@ inline GenCase scaleCaseOf(size_t kind, int n, size_t st, bool strict)
     return g;
 }
 // the diamond DAG has 2^n paths: its sizes are chosen so that the members of the quick family terminate
-static const int SIZES_Q[] = {1, 10, 100, 250}, DIAMOND_Q[] = {1, 8, 12, 14};
+static const int SIZES_Q[] = {1, 10, 100}, DIAMOND_Q[] = {1, 8, 12};
 inline GenCase scaleCase(uint64_t i)
 {
     Radix r(i);
     bool strict = r.take(2) == 0;
-    size_t st = r.take(N_SINGLE), sz = r.take(4), kind = r.take(N_SCALE_KINDS);
+    size_t st = r.take(N_SINGLE), sz = r.take(3), kind = r.take(N_SCALE_KINDS);
     return scaleCaseOf(kind, kind == 6 ? DIAMOND_Q[sz] : SIZES_Q[sz], st, strict);
+}
+inline GenCase scaleMidCase(uint64_t i)
+{
+    Radix r(i);
+    bool strict = r.take(2) == 0;
+    size_t st = r.take(N_SINGLE), kind = r.take(N_SCALE_KINDS);
+    return scaleCaseOf(kind, kind == 6 ? 14 : 250, st, strict);
 }
 inline GenCase scaleBigCase(uint64_t i)
 {
@@ -442,7 +449,8 @@ inline const std::vector<GenFamily> &genFamilies()
         {"shape_q", [] { return q1Count() + q2Count() + q3sCount() + q4Count(); }, [](uint64_t i) { return shapeCase(shapeQ(i), "e:"); }},
         {"shape_t", [] { return q1Count() + q2Count() + q3Count() + t3Count() + t4Count() + t5Count(); }, [](uint64_t i) { return shapeCase(shapeT(i), "e:"); }},
         {"shape_d3", d3Count, [](uint64_t i) { return shapeCase(shapeD3(i), "e3:"); }},
-        {"scale", [] { return uint64_t(N_SCALE_KINDS * 4 * N_SINGLE * 2); }, scaleCase},
+        {"scale", [] { return uint64_t(N_SCALE_KINDS * 3 * N_SINGLE * 2); }, scaleCase},
+        {"scale_mid", [] { return uint64_t(N_SCALE_KINDS * N_SINGLE * 2); }, scaleMidCase},
         {"scale_big", [] { return uint64_t((N_SCALE_KINDS - 1) * N_SINGLE * 2); }, scaleBigCase},
         {"scale_hang", [] { return uint64_t(N_SINGLE); }, scaleHangCase},
         {"cycles", [] { return uint64_t(N_CYCLE_KINDS * 3 * N_SINGLE * 2); }, cycleCase},
